@@ -863,7 +863,7 @@ struct Engine : public vf::Engine {
             case H_CLEAR_FAILS: failable.clearFailedAllocs(); W.desig.clear(); W.failIndex = 0; break;
             case H_OOM_SET: cpputest_malloc_set_out_of_memory(); W.oomAll = true; W.oomCountdown = -1; fired("c_out_of_memory"); break;
             case H_OOM_COUNTDOWN: cpputest_malloc_set_out_of_memory_countdown((int)o.a); W.oomCountdown = (int)o.a; if (o.a == 0) W.oomAll = true; fired("c_out_of_memory_countdown"); break;
-            case H_OOM_CLEAR: if (W.oomAll || W.oomCountdown >= 0) { cpputest_malloc_set_not_out_of_memory(); W.oomAll = false; W.oomCountdown = -1; for (int k = 2; k < 3; k++) if (W.failableFor[k]) setCurrentMallocAllocator(&failable); } break;
+            case H_OOM_CLEAR: { cpputest_malloc_set_not_out_of_memory(); W.oomAll = false; W.oomCountdown = -1; for (int k = 2; k < 3; k++) if (W.failableFor[k]) setCurrentMallocAllocator(&failable); } break;
             case H_STASH: { GlobalMemoryAllocatorStash st; st.save(); st.restore(); probe("allocator_stash_round_trip"); break; }
             case H_MODE: {      // nothing is allocated or released in between: every block stays tracked, every later call is tracked again
                 if (o.a == 0) { MemoryLeakWarningPlugin::turnOffNewDeleteOverloads(); if (W.threadsafeNow) MemoryLeakWarningPlugin::turnOnThreadSafeNewDeleteOverloads(); else MemoryLeakWarningPlugin::turnOnDefaultNotThreadSafeNewDeleteOverloads(); }
@@ -903,7 +903,7 @@ struct Engine : public vf::Engine {
         }
         if (!CTX.reports.empty()) fail(W, "C05", "release_at_end", sg("got", CTX.reports[0].first.c_str()), sfmt("releasing the surviving blocks raised %zu reports", CTX.reports.size()));
         if (CTX.bufOverflow) fail(W, "C14", "buffer_bounds", sg("after", "end"), CTX.bufOverflowDetail);
-        if (W.oomAll || W.oomCountdown >= 0) cpputest_malloc_set_not_out_of_memory();
+        cpputest_malloc_set_not_out_of_memory();      // always: the countdown is a static of the library and must not reach the next run of this worker
         MemoryLeakWarningPlugin::turnOnDefaultNotThreadSafeNewDeleteOverloads();
         failable.clearFailedAllocs();
         stash.restore();
